@@ -61,8 +61,8 @@ def check_predicate(report):
     # every reserved word looks up `type_` in a raw pb2 (dependency package) message whose key is `type`: KeyError at generation time.
     gf = m.func("gapic.schema.wrappers.MessageType.get_field")
     r1.instance("MessageType.get_field lookup key agrees with Field.name")
-    node_pp, _b, _f = fmatch(m, "self.fields[_F_ + ('_' if _F_ in utils.RESERVED_NAMES and self.meta.address.is_proto_plus_type else '')]", gf)
-    node_un, _b, _f = fmatch(m, "self.fields[_F_ + ('_' if _F_ in utils.RESERVED_NAMES else '')]", gf)
+    node_pp, _b, _f = fmatch(m, "_X_.fields[_F_ + ('_' if _F_ in utils.RESERVED_NAMES and _X_.meta.address.is_proto_plus_type else '')]", gf)
+    node_un, _b, _f = fmatch(m, "_X_.fields[_F_ + ('_' if _F_ in utils.RESERVED_NAMES else '')]", gf)
     r1.need(node_pp is not None or node_un is not None, "MessageType.get_field: self.fields[<name> + ('_' if <reserved...> else '')]", "lookup key not recognised")
     r1.check(node_pp is not None, gf.module.path, (node_un or gf.node).lineno if hasattr(node_un or gf.node, "lineno") else gf.node.lineno,
              "MessageType.get_field: key suffixed for every reserved word",
@@ -106,18 +106,34 @@ def check_predicate(report):
 
     r3 = report.rule("C12.3", "rpc and module names avoid keywords and transport/client internals", floor=4)
     wr = m.module("gapic.schema.wrappers").path
-    cmn = m.func("gapic.schema.wrappers.Method.client_method_name")
-    from ..pymodel import nmatch as _nm
-    bb = _nm(m, "make_private(_ANYN_) if self.is_internal else _ANYN_", cmn, keep={"make_private"})
-    r3.instance("client_method_name")
-    r3.check(bb is not None and bb["_ANYN_"] == "f'{self.name}_' if self.name.lower() in keyword.kwlist else self.name", wr, cmn.node.lineno,
-             "Method.client_method_name", "keyword rpc names get one trailing '_' (case-insensitively, because the method name is snake-cased); internal ones a leading '_'")
-    tsn = m.func("gapic.schema.wrappers.Method.transport_safe_name")
-    from ..pymodel import nmatch
-    b = nmatch(m, "f'{self.name}_' if self.name.lower() in _ANYU_ else self.name", tsn)
-    r3.instance("transport_safe_name")
-    r3.check(b is not None and "keyword.kwlist" in b["_ANYU_"] and all(w in b["_ANYU_"] for w in ("'createchannel'", "'grpcchannel'", "'operationsclient'")), wr,
-             tsn.node.lineno, "Method.transport_safe_name", "transport property names avoid keywords and the transport's own members")
+    # both name rules are decided by evaluating the normal form (vlib/pyeval.py) on a finite set of rpc names that covers every case:
+    # keyword in either capitalisation, the transport's own members, ordinary names - for is_internal in {False, True}
+    import keyword as _kw
+    import itertools as _it
+    from ..pymodel import nreturn as _nret
+    from ..pyeval import Evaluator as _Ev, UNKNOWN as _UNK
+    NAMES = ("Import", "import", "Class", "From", "GetFoo", "list_things", "CreateChannel", "GrpcChannel", "OperationsClient", "createchannel", "Lambda")
+    funcs_ = {"chain": lambda *a: [y for x in a for y in x], "itertools.chain": lambda *a: [y for x in a for y in x],
+              "make_private": lambda x: "_" + x, "utils.make_private": lambda x: "_" + x}
+    for qual_, members_, what_, internal_ in (
+            ("gapic.schema.wrappers.Method.client_method_name", (), "Method.client_method_name",
+             "keyword rpc names get one trailing '_' (case-insensitively, because the method name is snake-cased); internal ones a leading '_'"),
+            ("gapic.schema.wrappers.Method.transport_safe_name", ("createchannel", "grpcchannel", "operationsclient"), "Method.transport_safe_name",
+             "transport property names avoid keywords and the transport's own members")):
+        f_ = m.func(qual_)
+        e_ = _nret(m, f_, keep={"make_private"})
+        r3.instance(what_.split(".")[1])
+        r3.need(e_ is not None, what_, "does not reduce to one expression")
+        bad_ = []
+        for nm_, internal in _it.product(NAMES, (False, True)):
+            v_ = _Ev({"self": {"name": nm_, "is_internal": internal}, "keyword": {"kwlist": list(_kw.kwlist)}}, funcs=funcs_).ev(e_)
+            r3.need(v_ is not _UNK, what_, f"cannot evaluate `{ast.unparse(e_)[:100]}` for name={nm_!r}")
+            want_ = nm_ + "_" if (nm_.lower() in _kw.kwlist or nm_.lower() in members_) else nm_
+            if qual_.endswith("client_method_name") and internal:
+                want_ = "_" + want_
+            if v_ != want_:
+                bad_.append(f"{nm_!r}{' (internal)' if internal else ''} -> {v_!r}, expected {want_!r}")
+        r3.check(not bad_, wr, f_.node.lineno, f"{what_}: {'; '.join(bad_[:3])}" if bad_ else what_, internal_)
     bd = m.func("gapic.schema.api.API.build")
     from ..pymodel import FuncInfo, nfunc, find_match_ast
     from ..pynorm import norm_expr
